@@ -81,6 +81,8 @@ KEYS: Dict[str, Any] = {
     "logconfig": _opt(_str),
     "logconfig_dict": _opt(st.dictionaries(_plain.filter(lambda s: s != ""), _int, max_size=2)),
     "loglevel": _str,
+    # the one class-valued setting: the generated value names a Logger subclass (see _pyval)
+    "logger_class": st.sampled_from(["CustomLogger", "QuietLogger"]),
     "max_app_queue_size": _int,
     "max_requests": _opt(_int),
     "max_requests_jitter": _int,
@@ -125,10 +127,35 @@ def snapshot(config: Any) -> dict:
         v = getattr(config, k)
         if callable(v) and not isinstance(v, type):
             continue
-        out[k] = v
+        out[k] = _norm_class(v)
     for k, v in vars(config).items():
-        out["inst:" + k] = v
+        out["inst:" + k] = _norm_class(v)
     return out
+
+
+def _norm_class(v: Any) -> Any:
+    """Classes made by different sources are different objects: compared by name and bases."""
+    if isinstance(v, type):
+        return "class:%s(%s)" % (v.__name__, ",".join(b.__name__ for b in v.__bases__))
+    return v
+
+
+def _live(mapping: dict) -> dict:
+    """The mapping as a Python caller would pass it (logger_class as a real class)."""
+    out = dict(mapping)
+    if "logger_class" in out:
+        from hypercorn.logging import Logger
+
+        out["logger_class"] = type(out["logger_class"], (Logger,), {})
+    return out
+
+
+def _pysrc(k: str, v: Any, target: str = "") -> str:
+    """One assignment of a Python configuration file / module."""
+    if k == "logger_class":
+        return (f"import hypercorn.logging\n"
+                f"{target}{k} = type({v!r}, (hypercorn.logging.Logger,), {{}})\n")
+    return f"{target}{k} = {v!r}\n"
 
 
 def _diff(a: dict, b: dict) -> List[str]:
@@ -182,7 +209,8 @@ _counter = itertools.count()
 def run_loaders(case: dict) -> CaseInfo:
     from hypercorn.config import Config
 
-    mapping = case
+    spec = case
+    mapping = _live(case)
     WORK.mkdir(exist_ok=True)
     tmp = tempfile.mkdtemp(prefix="c19-", dir=WORK)
     modname = f"vcfg_{os.getpid()}_{next(_counter)}"
@@ -218,7 +246,7 @@ def run_loaders(case: dict) -> CaseInfo:
             results["object(class attrs only)"] = snapshot(
                 Config.from_object(type("AllSettings", (), dict(items))()))
 
-            body = "".join(f"{k} = {v!r}\n" for k, v in mapping.items())
+            body = "".join(_pysrc(k, v) for k, v in spec.items())
             pyfile = os.path.join(tmp, "conf_file.py")
             with open(pyfile, "w", encoding="utf-8") as f:
                 f.write(body)
@@ -227,8 +255,8 @@ def run_loaders(case: dict) -> CaseInfo:
             with open(os.path.join(tmp, modname + ".py"), "w", encoding="utf-8") as f:
                 f.write(body)
                 f.write("class Holder:\n    pass\ninstance = Holder()\n")
-                for k, v in mapping.items():
-                    f.write(f"instance.{k} = {v!r}\n")
+                for k, v in spec.items():
+                    f.write(_pysrc(k, v, "instance."))
             sys.path.insert(0, tmp)
             importlib.invalidate_caches()
             try:
@@ -244,7 +272,8 @@ def run_loaders(case: dict) -> CaseInfo:
                 sys.path.remove(tmp)
                 sys.modules.pop(modname, None)
 
-            no_none = {k: v for k, v in mapping.items() if v is not None}
+            no_none = {k: v for k, v in mapping.items()
+                       if v is not None and k != "logger_class"}  # TOML has no classes
             ref_toml = snapshot(Config.from_mapping(no_none))
             tfile = os.path.join(tmp, "conf.toml")
             with open(tfile, "w", encoding="utf-8") as f:
@@ -264,7 +293,7 @@ def run_loaders(case: dict) -> CaseInfo:
                 continue
             want = [v] if k in ("bind", "insecure_bind", "quic_bind") and isinstance(v, str) else v
             got = ref.get(k, ref.get("inst:" + k))
-            if got != want:
+            if got != _norm_class(want):
                 raise Violation("setting_not_applied", f"{k}: got {got!r} want {want!r}", key=k)
     finally:
         shutil.rmtree(tmp, ignore_errors=True)
